@@ -10,6 +10,8 @@ type builder struct {
 	doc             *XMLDoc
 	dict            *DataDictionary
 	componentByName map[string]*XMLComponent
+	// building holds the components on the current build path, to refuse cyclic references.
+	building map[string]bool
 }
 
 func (b *builder) build(doc *XMLDoc) (*DataDictionary, error) {
@@ -30,6 +32,7 @@ func (b *builder) build(doc *XMLDoc) (*DataDictionary, error) {
 	}
 
 	b.componentByName = make(map[string]*XMLComponent)
+	b.building = make(map[string]bool)
 	for _, c := range doc.Components {
 		b.componentByName[c.Name] = c
 	}
@@ -84,6 +87,12 @@ func (b builder) findOrBuildComponentType(xmlMember *XMLComponentMember) (*Compo
 }
 
 func (b builder) buildComponentType(xmlComponent *XMLComponent) (*ComponentType, error) {
+	if b.building[xmlComponent.Name] {
+		return nil, fmt.Errorf("cyclic reference to component %v", xmlComponent.Name)
+	}
+	b.building[xmlComponent.Name] = true
+	defer delete(b.building, xmlComponent.Name)
+
 	var parts []MessagePart
 
 	for _, member := range xmlComponent.Members {
